@@ -9,10 +9,11 @@
 (* and all float contents of the slots.                                                            *)
 (* Every C statement that computes an index is transcribed literally (no "mod" where the code has   *)
 (* an if), so that the range theorems are theorems about the code's arithmetic.                     *)
-EXTENDS Integers, Sequences, FiniteSets, TLC
-CONSTANT CountMax                 \* ANALYSIS_COUNT_MAX (10000); any value >= 17 is index-equivalent
+EXTENDS Integers, Sequences, FiniteSets, SequencesExt, TLC
+CONSTANTS CountMax,               \* ANALYSIS_COUNT_MAX (10000); any value >= 17 is index-equivalent
+          DS                      \* DETECT_SIZE (100); a parameter so that the path mix can also be closed on a short ring
 
-DETECT_SIZE == 100                \* analysis.h:42
+DETECT_SIZE == DS                 \* analysis.h:42 (100)
 BUF         == 720                \* ANALYSIS_BUF_SIZE, 30 ms at 24 kHz
 HIST        == 240                \* history kept between windows (analysis.c:491, 540, 545)
 NB_FRAMES   == 8
@@ -26,8 +27,8 @@ SubLen(Fs) == Fs \div 400         \* the reader counts in 2.5 ms sub-frames
 To24(Fs, n) == IF Fs = 48000 THEN n \div 2 ELSE IF Fs = 16000 THEN (3 * n) \div 2 ELSE n
 FrameSizes(Fs) == {Fs \div 400, Fs \div 200, Fs \div 100, Fs \div 50, Fs \div 25,
                    (3 * Fs) \div 50, (4 * Fs) \div 50, (5 * Fs) \div 50, (6 * Fs) \div 50}
-Min(a, b) == IF a < b THEN a ELSE b
-Max(a, b) == IF a > b THEN a ELSE b
+Min2(a, b) == IF a < b THEN a ELSE b
+Max2(a, b) == IF a > b THEN a ELSE b
 
 \* the encoder's gate (opus_encoder.c:1183, float build)
 AnalysisRuns(cx, Fs) == cx >= 7 /\ Fs >= 16000
@@ -41,69 +42,81 @@ Reset(s) == InitState
 InRing(i) == i >= 0 /\ i < DETECT_SIZE
 
 -----------------------------------------------------------------------------
-(* tonality_analysis(), called once per piece by run_analysis' while loop.                          *)
-(* paths[k] is the oracle for the k-th window completed in this call.  The result lists the windows  *)
-(* (slot written, samples of this call consumed when it completed) and a conjunction `ok` of the     *)
-(* memory conditions: both downmix_and_resample() calls write inside inmem[0..BUF), the pcm range    *)
-(* read lies inside the caller's buffer, the slot index is inside info[].                            *)
-RECURSIVE Feed(_, _, _, _, _, _, _, _, _)
-Feed(s, Fs, plen, offset, afs, paths, wins, pushed, ok) ==
-  IF plen <= 0 THEN [s |-> s, wins |-> wins, pushed |-> pushed, ok |-> ok]
+(* tonality_analysis(tonal, ..., len, offset, ...) - ONE piece, transcribed statement by statement.    *)
+(* p is the oracle for the window this piece completes (if it completes one).                          *)
+Piece(s, Fs, inlen, p) ==
+  LET len   == To24(Fs, inlen)
+      mf0   == IF s.init = 0 THEN HIST ELSE s.mf              \* analysis.c:489-493
+      first == Min2(len, BUF - mf0)                            \* analysis.c:513
+      okA   == mf0 >= 0 /\ first >= 0 /\ mf0 + first <= BUF   \* the first downmix writes inmem[mf0 .. mf0+first)
+  IN IF mf0 + len < BUF
+       THEN [s |-> [s EXCEPT !.mf = mf0 + len, !.init = 1], win |-> FALSE, ok |-> okA, slot |-> 0, prev |-> 0, need |-> 0]
+       ELSE
+         LET slot == s.wp                                     \* info = &tonal->info[tonal->write_pos++]
+             wp0  == slot + 1
+             wp1  == IF wp0 >= DETECT_SIZE THEN wp0 - DETECT_SIZE ELSE wp0
+             need == BUF - mf0
+             rem  == len - need                               \* analysis.c:541
+             pp0  == wp1 - 2                                  \* analysis.c:549
+             pp   == IF pp0 < 0 THEN pp0 + DETECT_SIZE ELSE pp0
+         IN [s |-> [s EXCEPT !.wp = wp1, !.mf = HIST + rem, !.init = 1,
+                             !.valid[slot] = IF p = "S" THEN s.valid[pp] ELSE IF p = "N" THEN 1 ELSE 0,
+                             !.ecnt = IF p = "N" THEN (@ + 1) % NB_FRAMES ELSE @,
+                             !.cnt  = IF p = "N" THEN Min2(@ + 1, CountMax) ELSE @],
+             win |-> TRUE, slot |-> slot, prev |-> pp, need |-> need,
+             \* the second downmix writes inmem[240 .. 240+rem); the slot and the silence source are inside info[]
+             ok |-> okA /\ InRing(slot) /\ InRing(pp) /\ rem >= 0 /\ HIST + rem <= BUF]
+
+(* run_analysis' while loop: pieces of Fs/50 and a shorter last one.  Summarised (TLC evaluates deep   *)
+(* recursion very slowly) with the help of the lemma FullPieceLemma below - a full 20 ms piece always   *)
+(* completes exactly one window and leaves mem_fill where it was - which AnalysisRing_mc checks against *)
+(* Piece at every reachable state, as it checks FeedIsPieces (Feed = Piece iterated) for short calls.   *)
+Mod(a) == a % DETECT_SIZE
+Feed(s, Fs, plen, offset, afs, paths) ==
+  IF plen <= 0 THEN [s |-> s, wins |-> <<>>, pushed |-> 0, ok |-> TRUE]
   ELSE
-    LET inlen == Min(Chunk(Fs), plen)
-        len   == To24(Fs, inlen)
-        s0    == IF s.init = 0 THEN [s EXCEPT !.mf = HIST, !.init = 1] ELSE s
-        first == Min(len, BUF - s0.mf)                       \* analysis.c:513
-        ok0   == /\ ok /\ offset >= 0 /\ offset + inlen <= afs
-                 /\ s0.mf >= 0 /\ first >= 0 /\ s0.mf + first <= BUF
-    IN IF s0.mf + len < BUF
-         THEN Feed([s0 EXCEPT !.mf = @ + len], Fs, plen - Chunk(Fs), offset + Chunk(Fs), afs, paths, wins, pushed + len, ok0)
-         ELSE
-           LET slot == s0.wp                                  \* info = &tonal->info[tonal->write_pos++]
-               wp0  == slot + 1
-               wp1  == IF wp0 >= DETECT_SIZE THEN wp0 - DETECT_SIZE ELSE wp0
-               need == BUF - s0.mf
-               rem  == len - need                             \* analysis.c:541
-               pp0  == wp1 - 2                                \* analysis.c:549
-               pp   == IF pp0 < 0 THEN pp0 + DETECT_SIZE ELSE pp0
-               p    == paths[Len(wins) + 1]
-               ok1  == ok0 /\ InRing(slot) /\ InRing(pp) /\ rem >= 0 /\ HIST + rem <= BUF
-               s1   == [s0 EXCEPT !.wp = wp1, !.mf = HIST + rem,
-                                  !.valid[slot] = IF p = "S" THEN s0.valid[pp] ELSE IF p = "N" THEN 1 ELSE 0,
-                                  !.ecnt = IF p = "N" THEN (@ + 1) % NB_FRAMES ELSE @,
-                                  !.cnt  = IF p = "N" THEN Min(@ + 1, CountMax) ELSE @]
-           IN Feed(s1, Fs, plen - Chunk(Fs), offset + Chunk(Fs), afs, paths,
-                   Append(wins, [slot |-> slot, prev |-> pp, at |-> pushed + need, p |-> p]), pushed + len, ok1)
+    LET C      == Chunk(Fs)
+        nfull  == plen \div C
+        lastIn == plen % C
+        last24 == To24(Fs, lastIn)
+        mf0    == IF s.init = 0 THEN HIST ELSE s.mf
+        lastW  == lastIn > 0 /\ mf0 + last24 >= BUF
+        n      == nfull + (IF lastW THEN 1 ELSE 0)
+        mf1    == IF lastIn = 0 THEN mf0 ELSE IF lastW THEN HIST + (last24 - (BUF - mf0)) ELSE mf0 + last24
+        v0     == s.valid[Mod(s.wp + DETECT_SIZE - 1)]
+        nN     == Cardinality({j \in 1..n : paths[j] = "N"})
+        wins   == [i \in 1..n |-> [slot |-> Mod(s.wp + i - 1), prev |-> Mod(s.wp + i - 2 + DETECT_SIZE),
+                                   at |-> (i - 1) * WIN + (BUF - mf0), p |-> paths[i]]]
+        \* validity written by window i: a silence window copies the slot before it (analysis.c:549-552).
+        \* (TLC re-evaluates a LET definition at every use: the fold is bound once through a singleton set)
+        newv   == CHOOSE f \in { [q \in 0..(DETECT_SIZE - 1) |->
+                                     LET i == Mod(q - s.wp + DETECT_SIZE) + 1 IN IF i <= n THEN vs[i] ELSE s.valid[q]] :
+                                 vs \in { FoldLeft(LAMBDA acc, q : Append(acc, IF q = "N" THEN 1 ELSE IF q = "X" THEN 0
+                                                                               ELSE IF acc = <<>> THEN v0 ELSE acc[Len(acc)]),
+                                                   <<>>, [i \in 1..n |-> paths[i]]) } } : TRUE
+        nch    == nfull + (IF lastIn > 0 THEN 1 ELSE 0)
+        ok     == /\ offset >= 0 /\ offset + plen <= afs                    \* pcm read range of all pieces
+                  /\ mf0 >= HIST /\ mf0 < BUF /\ mf1 >= HIST /\ mf1 < BUF
+                  /\ InRing(s.wp) /\ n < DETECT_SIZE
+    IN [s |-> [s EXCEPT !.wp = Mod(s.wp + n), !.mf = mf1, !.init = 1, !.valid = newv,
+                        !.ecnt = (@ + nN) % NB_FRAMES, !.cnt = Min2(@ + nN, CountMax)],
+        wins |-> wins, pushed |-> nfull * WIN + last24, ok |-> ok]
 
 -----------------------------------------------------------------------------
-(* tonality_get_info(tonal, info_out, len): the reader.  Literal transcription of the index           *)
-(* computations; `reads` collects every slot index the function dereferences, `term` says that the    *)
-(* while(1) loop ended within DETECT_SIZE iterations.                                                 *)
-Inc(p) == IF p + 1 = DETECT_SIZE THEN 0 ELSE p + 1            \* pos++; if (pos==DETECT_SIZE) pos = 0;
-Dec(p) == IF p - 1 < 0 THEN DETECT_SIZE - 1 ELSE p - 1        \* pos--; if (pos<0) pos = DETECT_SIZE-1;
+(* tonality_get_info(tonal, info_out, len): the reader.  The position update and the choice of the      *)
+(* slot are transcribed literally; the four scans are given by their index sets (the C loops step with  *)
+(* "pos++; if (pos==DETECT_SIZE) pos=0" / "pos--; if (pos<0) pos=DETECT_SIZE-1" = Inc/Dec, which equal   *)
+(* +-1 modulo the ring for positions inside it, and stop at write_pos).  `reads` collects every slot     *)
+(* index the function dereferences.  The while(1) loop ends because mpos steps through the whole ring    *)
+(* and write_pos is a ring position (theorem Ranges): its trip count is given explicitly.                *)
+Inc(p) == IF p + 1 = DETECT_SIZE THEN 0 ELSE p + 1
+Dec(p) == IF p - 1 < 0 THEN DETECT_SIZE - 1 ELSE p - 1
+Dist(a, b) == LET d == Mod(b - a + DETECT_SIZE) IN IF d = 0 THEN DETECT_SIZE ELSE d    \* steps of Inc from a to reach b (1..DS)
 
-RECURSIVE FwdScan(_, _, _, _)       \* for (i=0;i<3;i++) { pos++; wrap; if (pos==write_pos) break; ... }
-FwdScan(pos, wp, i, acc) ==
-  IF i >= 3 THEN acc
-  ELSE LET q == Inc(pos) IN IF q = wp THEN acc ELSE FwdScan(q, wp, i + 1, Append(acc, q))
-
-RECURSIVE BackScan(_, _, _, _, _)   \* for (i=0;i<bandwidth_span;i++) { pos--; wrap; if (pos==write_pos) break; ... }
-BackScan(pos, wp, i, span, acc) ==
-  IF i >= span THEN acc
-  ELSE LET q == Dec(pos) IN IF q = wp THEN acc ELSE BackScan(q, wp, i + 1, span, Append(acc, q))
-
-RECURSIVE ProbScan(_, _, _, _, _)   \* the while (1) loop over mpos / vpos (analysis.c:354-372)
-ProbScan(mpos, vpos, wp, fuel, acc) ==
-  IF fuel = 0 THEN [term |-> FALSE, reads |-> acc]
-  ELSE LET m == Inc(mpos) IN
-       IF m = wp THEN [term |-> TRUE, reads |-> acc]
-       ELSE LET v == Inc(vpos) IN
-            IF v = wp THEN [term |-> TRUE, reads |-> acc]
-            ELSE ProbScan(m, v, wp, fuel - 1, acc \o <<v, m>>)
-
-RECURSIVE PastScan(_, _, _, _)      \* for (i=0;i<IMIN(count-1,15);i++) { pos--; wrap; read }
-PastScan(pos, i, n, acc) ==
-  IF i >= n THEN acc ELSE LET q == Dec(pos) IN PastScan(q, i + 1, n, Append(acc, q))
+GetPos(s, len, Fs) ==
+  LET rs1 == s.rsub + len \div SubLen(Fs)
+      rp1 == s.rp + rs1 \div 8
+  IN [rp |-> IF rp1 >= DETECT_SIZE THEN rp1 - DETECT_SIZE ELSE rp1, rsub |-> rs1 % 8]
 
 Get(s, len, Fs) ==
   LET la0   == s.wp - s.rp
@@ -120,18 +133,23 @@ Get(s, len, Fs) ==
       v     == IF InRing(pos0) THEN s.valid[pos0] ELSE 0
   IN IF v = 0
        THEN [s |-> s2, valid |-> 0, pos0 |-> pos0, la |-> la, fwd |-> <<>>, back |-> <<>>, scan |-> <<>>, past |-> <<>>,
-             mpos |-> pos0, vpos |-> pos0, term |-> TRUE, reads |-> {pos0}]
+             mpos |-> pos0, vpos |-> pos0, trips |-> 0, reads |-> {pos0}]
        ELSE
-         LET fwd  == FwdScan(pos0, s.wp, 0, <<>>)
-             back == BackScan(pos0, s.wp, 0, 6 - Len(fwd), <<>>)
+         LET d    == Dist(pos0, s.wp)                               \* 1..DS-1 here: pos0 # write_pos
+             nf   == Min2(3, d - 1)                                  \* forward: for (i<3) { pos++; if (pos==write_pos) break; }
+             fwd  == [i \in 1..nf |-> Mod(pos0 + i)]
+             nb   == Min2(6 - nf, Dist(s.wp, pos0) - 1)              \* backward: for (i<bandwidth_span) { pos--; if (==write_pos) break; }
+             back == [i \in 1..nb |-> Mod(pos0 - i + DETECT_SIZE)]
              mp0  == IF la > 15 THEN (IF pos0 + 5 >= DETECT_SIZE THEN pos0 + 5 - DETECT_SIZE ELSE pos0 + 5) ELSE pos0
              vp0  == IF la > 15 THEN (IF pos0 + 1 >= DETECT_SIZE THEN pos0 + 1 - DETECT_SIZE ELSE pos0 + 1) ELSE pos0
-             ps   == ProbScan(mp0, vp0, s.wp, DETECT_SIZE + 1, <<>>)
-             past == IF la < 10 THEN PastScan(pos0, 0, Min(s.cnt - 1, 15), <<>>) ELSE <<>>
+             nit  == Min2(Dist(mp0, s.wp), Dist(vp0, s.wp)) - 1      \* full iterations of the while (1) loop
+             scan == [i \in 1..(2 * nit) |-> IF i % 2 = 1 THEN Mod(vp0 + (i + 1) \div 2) ELSE Mod(mp0 + i \div 2)]
+             np   == IF la < 10 THEN Max2(0, Min2(s.cnt - 1, 15)) ELSE 0
+             past == [i \in 1..np |-> Mod(pos0 - i + DETECT_SIZE)]
              Rng(q) == {q[i] : i \in 1..Len(q)}
-         IN [s |-> s2, valid |-> 1, pos0 |-> pos0, la |-> la, fwd |-> fwd, back |-> back, scan |-> ps.reads, past |-> past,
-             mpos |-> mp0, vpos |-> vp0, term |-> ps.term,
-             reads |-> {pos0, mp0, vp0} \cup Rng(fwd) \cup Rng(back) \cup Rng(ps.reads) \cup Rng(past)]
+         IN [s |-> s2, valid |-> 1, pos0 |-> pos0, la |-> la, fwd |-> fwd, back |-> back, scan |-> scan, past |-> past,
+             mpos |-> mp0, vpos |-> vp0, trips |-> nit + 1,
+             reads |-> {pos0, mp0, vp0} \cup Rng(fwd) \cup Rng(back) \cup Rng(scan) \cup Rng(past)]
 
 \* the slots whose `bandwidth` the returned bandwidth is the maximum of (analysis.c:289, 301)
 BwSlots(g) == {g.pos0} \cup {g.fwd[i] : i \in 1..Len(g.fwd)} \cup {g.back[i] : i \in 1..Len(g.back)}
@@ -140,11 +158,10 @@ BwSlots(g) == {g.pos0} \cup {g.fwd[i] : i \in 1..Len(g.fwd)} \cup {g.back[i] : i
 (* run_analysis(analysis, ..., analysis_pcm != NULL, analysis_frame_size, frame_size, ..., Fs, ...)   *)
 Run(s, afsIn, fs, Fs, paths) ==
   LET afs0 == afsIn - (afsIn % 2)                                   \* analysis_frame_size -= analysis_frame_size&1
-      afs  == Min(MAXLOOK * Chunk(Fs), afs0)
-      f    == Feed(s, Fs, afs - s.aoff, s.aoff, afs, paths, <<>>, 0, TRUE)
-      s2   == [f.s EXCEPT !.aoff = afs - fs]
-      g    == Get(s2, fs, Fs)
-  IN [s |-> g.s, get |-> g, wins |-> f.wins, pushed |-> f.pushed, ok |-> f.ok, afs |-> afs]
+      afs  == Min2(MAXLOOK * Chunk(Fs), afs0)
+  IN CHOOSE r \in UNION { { [s |-> g.s, get |-> g, wins |-> f.wins, pushed |-> f.pushed, ok |-> f.ok, afs |-> afs] :
+                             g \in {Get([f.s EXCEPT !.aoff = afs - fs], fs, Fs)} } :
+                          f \in {Feed(s, Fs, afs - s.aoff, s.aoff, afs, paths)} } : TRUE
 
 \* Ranges every reachable state must satisfy (the C types are plain int: nothing else keeps them there)
 StateOK(s) == /\ InRing(s.wp) /\ InRing(s.rp) /\ s.rsub \in 0..7
@@ -163,6 +180,11 @@ EncFrame(fs, Fs, silkOnly) ==
   ELSE IF silkOnly THEN (IF fs = 4 * Chunk(Fs) THEN 2 * Chunk(Fs) ELSE IF fs = 6 * Chunk(Fs) THEN 3 * Chunk(Fs)
                          ELSE IF fs \in {2 * Chunk(Fs), 3 * Chunk(Fs)} THEN fs ELSE Chunk(Fs))
   ELSE Chunk(Fs)
+\* n reads of len each (n <= 6)
 RECURSIVE GetN(_, _, _, _)
-GetN(s, len, Fs, n) == IF n = 0 THEN s ELSE GetN(Get(s, len, Fs).s, len, Fs, n - 1)
+GetN(s, len, Fs, n) == IF n = 0 THEN s ELSE GetN(GetPos(s, len, Fs), len, Fs, n - 1)
+\* up to two pieces, literally (for the lemma FeedIsPieces)
+Feed2(s, Fs, plen, paths) ==
+  LET C == Chunk(Fs) a == Piece(s, Fs, Min2(C, plen), paths[1]) IN
+  IF plen <= C THEN a.s ELSE Piece(a.s, Fs, Min2(C, plen - C), paths[IF a.win THEN 2 ELSE 1]).s
 =============================================================================
